@@ -207,8 +207,11 @@ def check(prop, tier, base_seed, runs, budget_s, workers, meta, batch=None, out=
                     agg["errors"].extend(a["errors"])
                     if len(agg["samples"]) < 3:
                         agg["samples"].extend(a["samples"])
-                # stop early once a violation is in hand (one is enough to fail the check)
-                if not agg["viols"] and not agg["errors"]:
+                # stop early once an unlisted violation is in hand (one is enough to fail the check); known findings do
+                # not cut the exploration short
+                findings_ = load_findings()
+                fresh = [v for v in agg["viols"] if not match_finding(findings_, prop, v[2], v[3])]
+                if not fresh and not agg["errors"]:
                     submit_more()
     except concurrent.futures.process.BrokenProcessPool as e:
         harness_error = f"worker died: {e}"
